@@ -74,7 +74,7 @@ package antispam
 //@ func (*antispamData).Get
 //@   ghost gok bool = false
 //@   ghost nlook int = 0
-//@   ensures nlook == 1 && !gok ==> isnil(result)
+//@   ensures len(args) == 2 && args[0] == "meta" && !gok ==> isnil(result)
 //@   callee maplookup:meta(k) (v, ok)
 //@     set gok := ok
 //@     set nlook := nlook + 1
